@@ -34,6 +34,7 @@ type SolveResult struct {
 	Time   float64 `json:"time_s"`
 	Model  string  `json:"model,omitempty"`
 	Values map[string]string `json:"values,omitempty"`
+	Candidate bool `json:"candidate_model,omitempty"` // model of a relaxed query (ownership axioms dropped): only a replay can confirm it
 	Raw    string  `json:"raw,omitempty"`
 	File   string  `json:"smt_file"`
 }
@@ -144,7 +145,7 @@ func Solve(file string, tsec int) SolveResult {
 
 // WriteQuery writes the SMT query for obligation o of vc. If negate is false, the query asks for
 // satisfiability of guard ∧ cond (cover check).
-func (vc *VC) WriteQuery(o *Obl, dir string, seq int, negate bool) (string, error) {
+func (vc *VC) WriteQuery(o *Obl, dir string, seq int, negate bool, relaxed ...bool) (string, error) {
 	var b strings.Builder
 	b.WriteString(preamble)
 	for _, d := range vc.decls {
@@ -152,6 +153,9 @@ func (vc *VC) WriteQuery(o *Obl, dir string, seq int, negate bool) (string, erro
 		b.WriteByte('\n')
 	}
 	needRoot := vc.useRoot || o.Kind == "frame"
+	if len(relaxed) > 0 && relaxed[0] {
+		needRoot = false
+	}
 	if needRoot {
 		b.WriteString("(assert (forall ((x Int)) (! (=> (> x 0) (= (root x) x)) :pattern ((root x)))))\n")
 	}
@@ -185,6 +189,9 @@ func (vc *VC) WriteQuery(o *Obl, dir string, seq int, negate bool) (string, erro
 		fmt.Fprintf(&b, "(get-value (%s))\n", rt.Term)
 	}
 	name := fmt.Sprintf("%s__%03d_%s.smt2", mangle(shortKey(vc.key)), seq, mangle(o.Name))
+	if len(relaxed) > 0 && relaxed[0] {
+		name = "relaxed_" + name
+	}
 	if len(name) > 180 {
 		name = name[:170] + fmt.Sprintf("_%03d.smt2", seq)
 	}
